@@ -39,7 +39,40 @@ type Rec struct {
 }
 
 // Step appends a JSON-able step (operation, input, ...) to the case.
-func (r *Rec) Step(s any) { r.Steps = append(r.Steps, s) }
+func (r *Rec) Step(s any) {
+	r.Steps = append(r.Steps, s)
+	if traceOn {
+		traceStep(r, s)
+	}
+}
+
+// Tracing (VERIF_TRACE=1): every step is appended to a file before it is executed, so that after an
+// unrecoverable crash of the test binary (fatal runtime error, stack overflow) the driver can turn the
+// last traced case into the replay file.
+var (
+	traceOn   = os.Getenv("VERIF_TRACE") != ""
+	traceFile *os.File
+	traceRec  *Rec
+)
+
+func traceStep(r *Rec, s any) {
+	if traceRec != r || traceFile == nil {
+		if traceFile != nil {
+			_ = traceFile.Close()
+		}
+		out := os.Getenv("VERIF_OUT")
+		if out == "" {
+			out = os.TempDir()
+		}
+		f, err := os.Create(filepath.Join(out, fmt.Sprintf("trace-%s-%s.jsonl", r.leg.Leg, shard())))
+		if err != nil {
+			return
+		}
+		traceFile, traceRec = f, r
+	}
+	b, _ := json.Marshal(s)
+	_, _ = traceFile.Write(append(b, '\n'))
+}
 
 // Class tags the case with a generator-distribution class.
 func (r *Rec) Class(c string) {
